@@ -469,6 +469,17 @@ impl NetcodeServer {
                     token_sequence,
                 } => {
                     let challenge_token = ChallengeToken::decode(token_data, token_sequence, &self.challenge_key)?;
+                    if challenge_token.client_id != pending.client_id || challenge_token.user_data != pending.user_data {
+                        // The challenge was issued for another connect token (other client id or user data):
+                        // it does not answer this pending connection
+                        log::debug!(
+                            "Ignored connection response from {}: challenge token is for Client {}, pending connection is for Client {}.",
+                            addr,
+                            challenge_token.client_id,
+                            pending.client_id
+                        );
+                        return Ok(ServerResult::None);
+                    }
                     let mut pending = self.pending_clients.remove(&addr).unwrap();
                     if find_client_slot_by_id(&self.clients, challenge_token.client_id).is_some() {
                         log::debug!(
